@@ -244,7 +244,11 @@ func (e *Exec) callFunction(fr *Frame, ins ssa.Instruction, fn *ssa.Function, ar
 		if fn.Pkg != nil {
 			e.P.build(fn.Pkg)
 		}
-		if len(fn.Blocks) > 0 && (!hasLoops(fn) || (ctr != nil && ctr.Flags["inline"])) && fr.depth < 4 && !isGo {
+		// functions of the module without a contract are inlined; their loops, if any, are cut with the automatic
+		// invariants (a helper extracted from a verified function keeps the function verifiable where the helper's
+		// loop does not matter to the contract, and fails the named obligation where it does)
+		ownLoops := hasLoops(fn) && ctr == nil && strings.HasPrefix(pkgPath, ModPath)
+		if len(fn.Blocks) > 0 && (!hasLoops(fn) || ownLoops || (ctr != nil && ctr.Flags["inline"])) && fr.depth < 4 && !isGo {
 			sub := e.newFrame(fn, args, binds, fr.depth+1, ctr)
 			sub.entryState = st.clone()
 			res, st2, exitG := e.runFrame(sub, st, g)
